@@ -53,7 +53,15 @@ def emit(sh, k, twin, ctx="single", consts=None, name=None):
     ret = "\treturn hdr, iters\n}\n" if twin else "\treturn s\n}\n"
     pre = "\ts := 0\n"
     body = ""
-    if sh["pos"] == "top":
+    if sh["extra"] == "partupd":
+        # post-less loop with two back edges: only the `continue` arm updates i
+        test = ("if !(%s) {" % c) if sh["stay"] else ("if %s {" % c)
+        inner = "%s\t\t%s\n\t\t\tbreak\n\t\t}\n%s\t\tc++\n\t\tif c%%3 != 0 {\n\t\t\t%s\n\t\t\tcontinue\n\t\t}\n%s" % (H, test, B, upd, pay)
+        if not twin and sh["stay"]:
+            body += "\tc := 0\n\ti := a\n\tfor %s {\n\t\tc++\n\t\tif c%%3 != 0 {\n\t\t\t%s\n\t\t\tcontinue\n\t\t}\n%s\t}\n" % (c, upd, pay)
+        else:
+            body += "\tc := 0\n\ti := a\n\tfor {\n%s\t}\n" % inner
+    elif sh["pos"] == "top":
         if sh["stay"]:
             if sh["extra"] == "condupd":
                 # update inside the body, no post statement
